@@ -54,6 +54,15 @@ def solve_and_judge(ctx, case, accept, skip_if_polarity_lost=True, solve_kw=None
                 H.call(sysobj.params)
             elif pre == "solve_loose":
                 H.solve(sysobj, vtol=1e-2, itol=1e-2, maxiter=3)
+            elif pre == "solve_other_args":  # same report, other ambient temperature / energy / tags
+                H.solve(sysobj, ta=kw.get("ta", 25.0) + 41.5, energy=not kw.get("energy", False), tags={"pre": 1})
+            elif pre == "phases":
+                H.call(sysobj.phases)
+            elif pre == "save":
+                with H.tmpdir() as _d:
+                    import os as _os
+
+                    H.call(sysobj.save, _os.path.join(_d, "pre.json"))
             ctx.count("pre_calls", pre)
         st, df = H.solve(sysobj, **kw)
     for k_ in ("energy", "tags", "quiet", "phase"):
@@ -84,7 +93,8 @@ def random_call_context(rng):
         kw["quiet"] = False
     if rng.random() < 0.2:
         kw["phase"] = "<some>"
-    pre = [rng.choice(["solve", "solve_phase", "rail_rep", "params", "solve_loose"]) for _ in range(rng.choice([0, 0, 1, 2]))]
+    pre = [rng.choice(["solve", "solve_phase", "rail_rep", "params", "solve_loose", "solve_other_args", "solve_other_args", "phases", "save"])
+           for _ in range(rng.choice([0, 0, 1, 2]))]
     return {"kw": kw, "pre": pre, "phase_pick": rng.randrange(8), "history": rng.choice(HISTORIES), "hseed": rng.randrange(1 << 30)}
 
 
